@@ -64,10 +64,10 @@ Qed.
 (* ------------------------------------------------------------------ ok_node *)
 Lemma spec_self_le_total anc c : Forall (fun w => w_self w <= w_total w) (spec_rows anc c).
 Proof.
-  revert anc. induction c as [a t0 t1 kids IH] using call_ind'. intro anc. cbn [spec_rows].
+  revert anc. induction c as [e a t0 t1 kids IH] using call_ind'. intro anc. cbn [spec_rows].
   apply Forall_app. split.
   - rewrite Forall_forall in IH |- *. intros w Hw. apply in_concat in Hw. destruct Hw as (l & Hl & Hw).
-    apply in_map_iff in Hl. destruct Hl as (k & <- & Hk). specialize (IH k Hk (a :: anc)).
+    apply in_map_iff in Hl. destruct Hl as (k & <- & Hk). specialize (IH k Hk (e :: anc)).
     rewrite Forall_forall in IH. auto.
   - constructor; [cbn; lia|constructor].
 Qed.
